@@ -4903,6 +4903,9 @@ impl<'a> Parser<'a> {
         while !self.check(&TokenKind::Gt)
             && !self.check(&TokenKind::GtGt)
             && !self.check(&TokenKind::GtGtGt)
+            && !self.check(&TokenKind::GtEq)
+            && !self.check(&TokenKind::GtGtEq)
+            && !self.check(&TokenKind::GtGtGtEq)
             && !self.is_at_end()
         {
             params.push(self.parse_type_annotation()?);
@@ -5209,6 +5212,34 @@ impl<'a> Parser<'a> {
                         end: self.current.span.end,
                         line: self.current.span.line,
                         column: self.current.span.column + 1,
+                    },
+                };
+                Ok(())
+            }
+            // `>=`, `>>=`, `>>>=`: the closing `>` directly before `=` (let x: Array<T>= ..)
+            TokenKind::GtEq | TokenKind::GtGtEq | TokenKind::GtGtGtEq => {
+                let rest = match self.current.kind {
+                    TokenKind::GtEq => TokenKind::Eq,
+                    TokenKind::GtGtEq => TokenKind::GtEq,
+                    _ => TokenKind::GtGtEq,
+                };
+                let span = self.current.span;
+                self.previous = Token {
+                    kind: TokenKind::Gt,
+                    span: Span {
+                        start: span.start,
+                        end: span.start + 1,
+                        line: span.line,
+                        column: span.column,
+                    },
+                };
+                self.current = Token {
+                    kind: rest,
+                    span: Span {
+                        start: span.start + 1,
+                        end: span.end,
+                        line: span.line,
+                        column: span.column + 1,
                     },
                 };
                 Ok(())
